@@ -51,6 +51,17 @@ def decide(pid, tier, units, scratch, run_unit):
         if r['status'] == 'ok' and cc and cc.get('agree') is False:
             r['status'] = 'undecided'
             r['reason'] = 'thorough cross-check: the second back end (%s) does not reproduce the obligation statuses (%s %s)' % (cc.get('solver'), cc.get('status'), cc.get('reason', '')[:200])
+    # A loop contract lists the variables its loop may assign.  When the ONLY failing obligations of a unit are 'Check that <local> is
+    # assignable' for plain local variables (not fields, not ghosts, not pointer targets), no clause about behaviour failed: a local was
+    # hoisted out of / introduced next to a loop and the frame text of the loop contract no longer covers it.  That is 'machinery needs
+    # updating' (exit 2), not a violation - a harmless hoisting must not raise an alarm.
+    for u, r in results:
+        if r['status'] != 'ok' or u.get('native'):
+            continue
+        fa = [o for o in r.get('obligations', []) if o['status'] == 'FAILURE']
+        if fa and all(re.fullmatch(r'Check that (?!g_)[A-Za-z_]\w* is assignable', (o.get('desc') or '').strip()) for o in fa):
+            r['status'] = 'undecided'
+            r['reason'] = 'only frame checks of local variables failed (%s): a loop contract does not list a local the changed text assigns; no behavioural clause failed' % ', '.join(sorted({o['desc'].split()[2] for o in fa}))
     undecided = [(u, r) for u, r in results if r['status'] != 'ok']
     viol = []      # (unit, result, obligation)
     knownhits = {}  # kid -> list
